@@ -307,6 +307,7 @@ def gen_spec(base_seed, i, W):
     if kind == "shared":
         policy["q"] = rng.choice((0.15, 0.4, 0.8))
         policy["p"] = rng.choice((0.0, 1 / 2000))
+        policy["hold"] = rng.random() < 0.5       # check-then-act forcing on rebound globals
     elif kind == "stall":
         policy["c"] = rng.choice((1 / 100, 1 / 300, 1 / 1000))   # about 2 / 0.7 / 0.2 expected stall opportunities per run
         policy["stalls"] = rng.choice((1, 1, 2, 3))
@@ -411,6 +412,7 @@ def run_one(base_seed, i, want_sample=False):
                    "fault_failing_call_in_a_thread": sum(1 for r in rec["results"] for x in r if x and x[0] == "err"),
                    "double_miss_runs": 1 if rec["double_miss"] else 0,
                    "fault_thread_stalled": rec["stalls_fired"], "shared_access_switches": rec["shared_switches"],
+                   "fault_thread_held_before_store_of_tested_global": rec.get("holds_fired", 0),
                    "double_augmenting_path_runs": 1 if rec["double_aug"] else 0},
         "oracle_queries": W.oracle.queries - q0, "oracle_hits": W.oracle.hits - h0,
         "fault_free": False, "violation": None,
